@@ -15,7 +15,7 @@ import ScyllaVerif.Model.ConnIO
     `r<j>` server answers the j-th oldest unanswered frame it has read, `u<stream>` frame on a stream the
     server does not owe, `b<hex>` raw bytes from the server, `x` server closes, `g`/`G` close/open a gate on
     the client's writes (the writer blocks in `flush`, later tasks stay in the submit channel; behind the gate
-    the 1024-slot submit channel fills up: further callers park — `submitFull`, `grant`, `push`),
+    the 1024-slot submit channel fills up: further callers park — `submitFull`, later `enqueue`),
     `w` the client's writes fail from now on (`WriteError`), `t<ms>` virtual time (keep-alive; the orphaner's
     1 s tick: more than 1024 stream ids orphaned for ≥ 1 s → `TooManyOrphanedStreamIds`).
   The reader (`ConnIO.reader`) and the keepaliver (`ConnIO.kaTurn`) are the model's.
@@ -151,21 +151,21 @@ structure ConnSt where
   kaNext : Nat := 0
   kaPending : Option (Nat × Nat) := none
   orphTimes : List (Nat × Nat) := []   -- orphaned stream id ↦ when it was orphaned (`OrphanageTracker`)
+  granted : List Nat := []      -- parked callers to which tokio's semaphore has assigned freed capacity; they still
+                                -- sit in `reserve()` (model: `sending`) until they are polled (`enqueue`)
 
 /-- Keep the orphaning times in step with the model's orphan set (a newly orphaned id gets the current time). -/
 def syncOrph (st : ConnSt) : ConnSt :=
+  if st.c.map.orphans == st.orphTimes.map (·.1) then st else
   { st with orphTimes := st.c.map.orphans.map fun s =>
       match st.orphTimes.find? (fun p => p.1 == s) with
       | some p => p
       | none => (s, st.clock) }
 
 /-- Capacity freed by the writer goes to the parked callers, oldest first. -/
-def grantN : Nat → Conn → Conn
-  | 0, c => c
-  | n + 1, c =>
-    match c.sending with
-    | [] => c
-    | r :: _ => grantN n (step c (.grant r))
+def grantN (n : Nat) (st : ConnSt) : ConnSt :=
+  let waiting := st.c.sending.filter (fun r => !st.granted.contains r)
+  { st with granted := st.granted ++ waiting.take n }
 
 /-- `n` × `writerTake`, logging the stream ids written. -/
 def takeN : Nat → ConnSt → ConnSt
@@ -200,7 +200,7 @@ def routerTurn (st : ConnSt) : ConnSt :=
     if st.c.broken || st.blocked || st.c.queue.isEmpty then st else
     let n := st.c.queue.length
     let st' := takeN n st
-    let st' := { st' with c := grantN n st'.c }
+    let st' := grantN n st'
     if st.writeFail then { st' with c := step st'.c (.break_ .writeError) }
     else if st.gateClosed then { st' with blocked := true } else st'
   syncOrph { st1 with c := orphanN st1.c.notices.length st1.c }
@@ -249,18 +249,20 @@ def userReq (st : ConnSt) (k : Nat) : Option Nat := st.users.reverse[k]?
 
 /-- A caller enters `send_request`: there is room in the submit channel, or it parks. -/
 def submitEv (st : ConnSt) : Ev :=
-  if st.c.queue.length + st.c.permits.length ≥ chanCap then .submitFull else .submit
+  if st.c.queue.length + st.granted.length ≥ chanCap then .submitFull else .submit
 
-/-- Dropping request `r`'s future; a permit it held goes to the next parked caller. -/
+/-- Dropping request `r`'s future; capacity that was assigned to it goes to the next parked caller. -/
 def cancelReq (st : ConnSt) (r : Nat) : ConnSt :=
-  let had := st.c.permits.contains r
-  let c' := step st.c (.cancel r)
-  { st with c := if had then grantN 1 c' else c' }
+  let had := st.granted.contains r
+  let st := { st with c := step st.c (.cancel r), granted := st.granted.filter (· != r) }
+  if had && !st.c.broken then grantN 1 st else st
 
-/-- Polling request `r`'s future: a caller that was handed capacity pushes its task, otherwise it looks into its
-oneshot. -/
+/-- Polling request `r`'s future: a parked caller that was assigned capacity pushes its task (`enqueue`; if the
+channel has been closed meanwhile its `reserve()` fails instead — it already holds `ChannelError`), any other
+caller looks into its oneshot. -/
 def pollReq (st : ConnSt) (r : Nat) : ConnSt :=
-  if st.c.permits.contains r then { st with c := step st.c (.push r) }
+  if st.granted.contains r && !st.c.broken then
+    { st with c := step st.c (.enqueue r), granted := st.granted.filter (· != r) }
   else { st with c := step st.c (.recv r) }
 
 /-- The orphaner's 1 s tick (`old_orphans_count() > OLD_ORPHAN_COUNT_THRESHOLD`). -/
